@@ -1,5 +1,5 @@
 #!/usr/bin/env python3
-# Rewrites DESIGN.md §8.7 (between the SEEDTABLE markers) from /verif/seeded/*/meta.json.
+# Rewrites DESIGN.md §8.8 (between the SEEDTABLE markers) from /verif/seeded/*/meta.json.
 import subprocess, re
 table = subprocess.check_output(['python3', '/verif/tools/seed_table.py']).decode()
 intro = open('/verif/tools/seed_section_intro.md').read()
